@@ -486,10 +486,40 @@ fn gen_stream(gen: usize, rng: &mut Rng, enc: &mut Encoder, stream_hint: u32) ->
 // ---------------------------------------------------------------------------------------------
 // targets
 
+/// Signature of the recorded finding F15 (KNOWN_FINDINGS.txt): every audio / video / metadata
+/// event a server session raises owns a copy of the application name and of the stream key, so a
+/// peer that chose names of ~64 KiB each gets ~128 KiB allocated per message - and a zero-length
+/// message with a type-3 header is one byte.  Allocation that these copies explain is reported
+/// under this signature; anything beyond them under the general one.
+pub const F15_SIG: &str = "per-event-copies-of-app-name-and-stream-key-exceed-the-allocation-bound";
+
+fn names_held(rs: &[rml_rtmp::sessions::ServerSessionResult]) -> usize {
+    use rml_rtmp::sessions::{ServerSessionEvent as E, ServerSessionResult as R};
+    rs.iter()
+        .map(|r| match r {
+            R::RaisedEvent(E::AudioDataReceived { app_name, stream_key, .. }) | R::RaisedEvent(E::VideoDataReceived { app_name, stream_key, .. }) | R::RaisedEvent(E::StreamMetadataChanged { app_name, stream_key, .. }) => {
+                app_name.capacity() + stream_key.capacity()
+            }
+            _ => 0,
+        })
+        .sum()
+}
+
 fn check_memory(out: &mut Out, mark: usize, fed: usize, ctx: &dyn Fn() -> Value) -> bool {
+    check_memory_names(out, mark, fed, 0, ctx)
+}
+
+fn check_memory_names(out: &mut Out, mark: usize, fed: usize, names_in_one_call: usize, ctx: &dyn Fn() -> Value) -> bool {
     let peak = alloc::peak_since(mark);
     let bound = 256 * fed + (33 << 20);
     out.maxv("max_peak_alloc_bytes", peak as u64);
+    if peak > bound && names_in_one_call > 0 && peak - names_in_one_call.min(peak) <= bound {
+        out.violation(
+            F15_SIG,
+            json!({"peak_bytes": peak, "bytes_fed": fed, "bound": bound, "bytes_in_copies_of_app_name_and_stream_key_returned_by_one_call": names_in_one_call, "context": ctx()}),
+        );
+        return false;
+    }
     if peak > bound {
         out.violation(
             "allocation-exceeds-small-multiple-of-bytes-received-plus-one-message",
@@ -645,6 +675,7 @@ fn run_server(rng: &mut Rng, out: &mut Out, gen: usize, state: usize) {
     };
     out.count(&format!("server_state_{}", SERVER_STATES[state]), 1);
     let mut fed = 2000usize;
+    let mut names_in_one_call = 0usize;
     let rounds = rng.usize(1, 3);
     for _ in 0..rounds {
         let bytes = gen_stream(gen, rng, &mut rig.enc, stream_id);
@@ -656,7 +687,7 @@ fn run_server(rng: &mut Rng, out: &mut Out, gen: usize, state: usize) {
             pos += n;
             out.count("calls_monitored", 1);
             rig.tick();
-            let r = lib_call(out, "ServerSession::handle_input", &ctx, || rig.s.handle_input(piece).map(|rs| rs.len()).map_err(|e| format!("{:?}", e)));
+            let r = lib_call(out, "ServerSession::handle_input", &ctx, || rig.s.handle_input(piece).map(|rs| names_held(&rs)).map_err(|e| format!("{:?}", e)));
             match r {
                 None => return,
                 Some(Err(_)) => {
@@ -665,7 +696,10 @@ fn run_server(rng: &mut Rng, out: &mut Out, gen: usize, state: usize) {
                         break;
                     }
                 }
-                Some(Ok(_)) => out.count("outcome_ok", 1),
+                Some(Ok(n)) => {
+                    names_in_one_call = names_in_one_call.max(n);
+                    out.count("outcome_ok", 1)
+                }
             }
             // interleaved application calls with arbitrary ids
             if rng.chance(1, 6) {
@@ -689,9 +723,49 @@ fn run_server(rng: &mut Rng, out: &mut Out, gen: usize, state: usize) {
                 }
             }
         }
-        if !check_memory(out, mark, fed, &ctx) {
+        if !check_memory_names(out, mark, fed, names_in_one_call, &ctx) {
             return;
         }
+    }
+}
+
+/// F15 exhibited directly (case 1, always run): app name and stream key of 60,000 bytes each,
+/// publish accepted, then one zero-length audio message and 10,000 one-byte type-3 headers, each
+/// of which completes another zero-length message, in one input call.
+fn f15_case(out: &mut Out) {
+    use super::sessprep::{command, connect_cmd, first_request_id, ServerRig};
+    use crate::refs::amf::{self, V};
+    out.eval(1);
+    let (mut rig, _) = ServerRig::new(rml_rtmp::sessions::ServerSessionConfig::new(), 1000).unwrap_or_else(|e| panic!("harness: {}", e));
+    let app = "a".repeat(60_000);
+    let key = "k".repeat(60_000);
+    let mut prefix_bytes = 0usize;
+    let mut step = |rig: &mut ServerRig, m: &RMsg, msid: u32| -> super::sessprep::Step<rml_rtmp::sessions::ServerSessionEvent> {
+        let w = super::sessprep::wire(&mut rig.enc, m, msid, 0);
+        prefix_bytes += w.len();
+        rig.feed(&w).unwrap_or_else(|e| panic!("harness: F15 prefix refused: {}", e))
+    };
+    let st = step(&mut rig, &connect_cmd(1.0, &app), 0);
+    let id = first_request_id(&st.events).expect("harness: no connection request");
+    rig.accept(id).unwrap_or_else(|e| panic!("harness: {}", e));
+    step(&mut rig, &command("createStream", 2.0, V::Null, vec![]), 0);
+    let st = step(&mut rig, &command("publish", 0.0, V::Null, vec![amf::s(&key), amf::s("live")]), 1);
+    let id = first_request_id(&st.events).expect("harness: no publish request");
+    rig.accept(id).unwrap_or_else(|e| panic!("harness: {}", e));
+    let mut wire = vec![0x04u8, 0, 0, 0, 0, 0, 0, 8, 1, 0, 0, 0];
+    wire.extend(std::iter::repeat(0xC4u8).take(10_000));
+    let fed = prefix_bytes + wire.len();
+    let ctx = || json!({"target": "ServerSession", "history": "connect(app of 60,000 bytes) accepted, createStream, publish(key of 60,000 bytes) accepted, then 04 000000 000000 08 01000000 followed by 10,000 x C4 in one handle_input call", "bytes_fed_in_total": fed});
+    let mark = alloc::mark();
+    out.count("calls_monitored", 1);
+    let r = lib_call(out, "ServerSession::handle_input", &ctx, || rig.s.handle_input(&wire).map(|rs| (rs.len(), names_held(&rs))).map_err(|e| format!("{:?}", e)));
+    match r {
+        Some(Ok((n, names))) => {
+            out.count("f15_case_messages_delivered", n as u64);
+            check_memory_names(out, mark, fed, names, &ctx);
+        }
+        Some(Err(e)) => out.violation("session-error-on-valid-zero-length-media", json!({"error": e, "context": ctx()})),
+        None => {}
     }
 }
 
@@ -830,7 +904,7 @@ impl Check for C03 {
     }
     fn plan(&self, tier: Tier) -> Plan {
         let mut p = Plan::new(tier.pick(1_500_000, 150_000_000), tier.pick(30.0, 480.0));
-        p.mandatory = 1;
+        p.mandatory = 2;
         p.cpu_budget_s = 20.0;
         p
     }
@@ -843,6 +917,10 @@ impl Check for C03 {
         if k == 0 {
             fixed_witnesses(rng, out);
             out.eval(1);
+            return;
+        }
+        if k == 1 {
+            f15_case(out);
             return;
         }
         out.eval(1);
@@ -887,7 +965,7 @@ impl Check for C03 {
         out.sample(|| json!({"target": target_name, "state": if target_name == "server" { SERVER_STATES[state] } else if target_name == "client" { CLIENT_STATES[state] } else { "-" }, "generator": GENERATORS[gen]}));
     }
     fn rule(&self) -> String {
-        "targets {Handshake (both roles, with/without generated p0+p1), ChunkDeserializer + MessagePayload::to_rtmp_message on everything it returns, MessagePayload::to_rtmp_message / rml_amf0::deserialize on arbitrary (type id, body), ServerSession in 10 state classes, ClientSession in 10 state classes} x generators {random bytes (optionally with a valid basic header); well-formed chunk streams carrying arbitrary (type id, body) with bodies empty/short/random/valid/valid-truncated/wrong-arity AMF0/AMF0 nested <= 32/declared lengths with nothing behind/mutated; protocol commands and data messages with arbitrary argument lists (NaN, negative, huge, fractional ids; missing and ill-typed arguments; AMF3-flagged) interleaved with media and application calls with arbitrary ids; chunk-level hostility (shrinking length mid-message, delta headers with small extended timestamps, compressed headers on unseen csids, chunk sizes 0/1/2^31-1/top bit, aborts, zero-length messages, 16 MiB announced with few bytes, hundreds of distinct csids, stray type-3 chunks, arbitrary header fields); mutated valid foreign streams; valid foreign streams}, enumerated round-robin (every target-state x generator pair), each fed in a random partition. Session states are reached by a valid prefix with a reference-encoding peer. Case 0 replays the fixed witnesses of the defects found on the pinned tree. Every library call runs under the panic monitor (overflow-checks and debug-assertions on), the allocator bound peak <= 256 x bytes fed + 33 MiB and the 20 s CPU watchdog. distinct = (target, state, generator) x bucketed observation (calls returning Ok, calls returning Err, messages decoded, number of calls).".to_string()
+        "targets {Handshake (both roles, with/without generated p0+p1), ChunkDeserializer + MessagePayload::to_rtmp_message on everything it returns, MessagePayload::to_rtmp_message / rml_amf0::deserialize on arbitrary (type id, body), ServerSession in 10 state classes, ClientSession in 10 state classes} x generators {random bytes (optionally with a valid basic header); well-formed chunk streams carrying arbitrary (type id, body) with bodies empty/short/random/valid/valid-truncated/wrong-arity AMF0/AMF0 nested <= 32/declared lengths with nothing behind/mutated; protocol commands and data messages with arbitrary argument lists (NaN, negative, huge, fractional ids; missing and ill-typed arguments; AMF3-flagged) interleaved with media and application calls with arbitrary ids; chunk-level hostility (shrinking length mid-message, delta headers with small extended timestamps, compressed headers on unseen csids, chunk sizes 0/1/2^31-1/top bit, aborts, zero-length messages, 16 MiB announced with few bytes, hundreds of distinct csids, stray type-3 chunks, arbitrary header fields); mutated valid foreign streams; valid foreign streams}, enumerated round-robin (every target-state x generator pair), each fed in a random partition. Session states are reached by a valid prefix with a reference-encoding peer. Case 0 replays the fixed witnesses of the defects found on the pinned tree; case 1 exhibits the recorded finding F15 (per-event copies of a 60,000-byte application name and stream key, one per one-byte zero-length message). Allocation explained by such copies is reported under F15's signature, anything beyond under the general one. Every library call runs under the panic monitor (overflow-checks and debug-assertions on), the allocator bound peak <= 256 x bytes fed + 33 MiB and the 20 s CPU watchdog. distinct = (target, state, generator) x bucketed observation (calls returning Ok, calls returning Err, messages decoded, number of calls).".to_string()
     }
     fn assumptions(&self) -> Vec<String> {
         vec![
